@@ -57,9 +57,12 @@ LIB_CLASSES["torch.Generator"] = {"bases": ["object"], "construct": lambda args,
 
 def _perm_seq(key, draw, n, st):
     k, i = z3.Int(uid("k")), z3.Int(uid("i"))
-    st.assume(z3.ForAll([k], z3.Implies(z3.And(0 <= k, k < n), z3.And(0 <= Perm(key, draw, n, k), Perm(key, draw, n, k) < n,
-                                                                     PermInv(key, draw, n, Perm(key, draw, n, k)) == k)),
-                        patterns=[Perm(key, draw, n, k)]))
+    body = z3.Implies(z3.And(0 <= k, k < n), z3.And(0 <= Perm(key, draw, n, k), Perm(key, draw, n, k) < n,
+                                                     PermInv(key, draw, n, Perm(key, draw, n, k)) == k))
+    if z3.is_const(n) or z3.is_int_value(n):
+        st.assume(z3.ForAll([k], body, patterns=[Perm(key, draw, n, k)]))
+    else:
+        st.assume(z3.ForAll([k], body))
     return VSeq(z3.If(n > 0, n, 0), lambda t: VInt(Perm(key, draw, n, t)), INT)
 
 
@@ -256,6 +259,10 @@ class AbsRng(VAbs):
     def keyterm(self):
         return self.key
 
+    def _bump(self):
+        self.draws += 1
+        return self.draws
+
     def getattr(self, name, st, eng):
         if name in ("random", "uniform", "normal", "beta"):
             def f(args, kwargs, s, e, name=name):
@@ -270,6 +277,18 @@ class AbsRng(VAbs):
                     s.assume(z3.And(r >= 0, r <= 1))
                 return VReal(r)
             return VFunc("rng." + name, f)
+        if name == "shuffle":
+            return VFunc("rng.shuffle", _shuffle(lambda a, s_, e_: (self.key, z3.IntVal(self._bump()))))
+        if name == "permutation":
+            def f(args, kwargs, s, e):
+                a = e.deref(args[0], s)
+                d = z3.IntVal(self._bump())
+                if isinstance(a, VSeq):
+                    _perm_seq(self.key, d, a.len, s)
+                    return VSeq(a.len, lambda k: a.elem(Perm(self.key, d, a.len, k)), a.etype)
+                n = _e.to_int(a)
+                return _perm_seq(self.key, d, n, s)
+            return VFunc("rng.permutation", f)
         if name == "integers":
             def f(args, kwargs, s, e):
                 self.draws += 1
@@ -312,3 +331,163 @@ def _full(args, kwargs, st, eng):
     r = VSeq(z3.If(n >= 0, n, 0), lambda i, v=v: v, typeof(v))
     r.kind = z3.IntVal(1)
     return st.alloc(r)
+
+
+# ----------------------------------------------------------------------------------------------- numpy / tensor index arrays
+def _mk_array(st, sq, kind):
+    r = VSeq(sq.len, sq.elem, sq.etype, sq.concrete)
+    r.kind = z3.IntVal(kind)
+    return st.alloc(r)
+
+
+@lib("numpy.arange")
+def _np_arange(args, kwargs, st, eng):
+    vals = [eng.deref(a, st) for a in args]
+    ts = []
+    for v in vals:
+        if isinstance(v, VOpt):
+            v = eng.unopt(v, st, None, "arange bound")
+        if isinstance(v, VReal):
+            # np.arange with float bounds: modelled for integral values only (np.ceil results); obligation says so
+            t = z3.ToInt(v.t)
+            eng.safety(st, "arange:integral-bound", z3.ToReal(t) == v.t, None, "np.arange bound is not integral", kind="model")
+            ts.append(t)
+        else:
+            ts.append(_e.to_int(v))
+    lo, hi = (z3.IntVal(0), ts[0]) if len(ts) == 1 else (ts[0], ts[1])
+    ln = z3.If(hi > lo, hi - lo, 0)
+    return _mk_array(st, VSeq(ln, lambda k: VInt(lo + k), INT), 2)
+
+
+@lib("numpy.ceil")
+def _np_ceil(args, kwargs, st, eng):
+    v = eng.deref(args[0], st)
+    if isinstance(v, VInt):
+        return VReal(z3.ToReal(v.t))
+    c = -z3.ToInt(-v.t)
+    r = VReal(z3.ToReal(c))
+    r.ratio = None
+    r.int_value = c
+    return r
+
+
+@lib("numpy.floor")
+def _np_floor(args, kwargs, st, eng):
+    v = eng.deref(args[0], st)
+    if isinstance(v, VInt):
+        return VReal(z3.ToReal(v.t))
+    c = z3.ToInt(v.t)
+    r = VReal(z3.ToReal(c))
+    r.int_value = c
+    return r
+
+
+@lib("numpy.tile")
+def _np_tile(args, kwargs, st, eng):
+    sq = eng.as_seq(args[0], st)
+    r = _e.to_int(eng.deref(args[1], st))
+    return _mk_array(st, VSeq(z3.If(r > 0, sq.len * r, 0), lambda k: sq.elem(k % sq.len), sq.etype), 2)
+
+
+def _shuffle(gen_of):
+    def h(args, kwargs, st, eng):
+        """in-place shuffle: afterwards a[k] == old[Perm(key, draw, n, k)] (a permutation that is a function of the generator)"""
+        ref = args[-1]
+        old = eng.deref(ref, st)
+        key, draw = gen_of(args, st, eng)
+        _perm_seq(key, draw, old.len, st)
+        new = VSeq(old.len, lambda k: old.elem(Perm(key, draw, old.len, k)), old.etype)
+        new.kind = old.kind
+        if isinstance(ref, VRef):
+            st.heap[ref.oid] = new
+        else:
+            raise Unsupported("shuffle of an immutable sequence")
+        return NONEV
+    return h
+
+
+LIB["numpy.random.shuffle"] = _shuffle(lambda a, s, e: (z3.Int(uid("global_np_rng")), z3.IntVal(0)))
+
+
+def seq_filter(st, eng, n, pred, elem, etype=INT, label="filter"):
+    """order preserving filter of positions 0..n-1 by pred(position): fresh sequence F with
+    F strictly increasing positions P(k), all satisfying pred, and complete (every satisfying position occurs)"""
+    name = uid(label)
+    P = z3.Function(name + "$pos", z3.IntSort(), z3.IntSort())
+    Inv = z3.Function(name + "$inv", z3.IntSort(), z3.IntSort())
+    ln = z3.Int(name + "$len")
+    k, i = z3.Int(uid("k")), z3.Int(uid("i"))
+    st.assume(ln >= 0, ln <= n,
+              z3.ForAll([k], z3.Implies(z3.And(0 <= k, k < ln), z3.And(0 <= P(k), P(k) < n, pred(P(k)), Inv(P(k)) == k)), patterns=[P(k)]),
+              z3.ForAll([k], z3.Implies(z3.And(0 <= k, k + 1 < ln), P(k) < P(k + 1)), patterns=[P(k + 1)]),
+              z3.ForAll([i], z3.Implies(z3.And(0 <= i, i < n, pred(i)), z3.And(0 <= Inv(i), Inv(i) < ln, P(Inv(i)) == i)), patterns=[Inv(i)]))
+    r = VSeq(ln, lambda t: elem(P(t)), etype)
+    r.filter_pos = P
+    return r
+
+
+@lib("numpy.isin")
+def _np_isin(args, kwargs, st, eng):
+    a, vals = eng.as_seq(args[0], st), eng.deref(args[1], st)
+    r = VSeq(a.len, lambda k: VBool(eng.contains(vals, a.elem(k), st, None)), BOOL)
+    r.kind = z3.IntVal(2)
+    return r
+
+
+@lib("numpy.array")
+def _np_array(args, kwargs, st, eng):
+    v = eng.as_seq(args[0], st)
+    r = VSeq(v.len, v.elem, v.etype, v.concrete)
+    r.kind = z3.IntVal(2)
+    return r
+
+
+LIB["numpy.int64"] = lambda a, k, s, e: VStr("np.int64")
+LIB_OBJECTS["numpy.int64"] = lambda: VStr("np.int64")
+
+
+LIB_CLASSES["torch.utils.data.Subset"] = {"bases": ["object"]}
+
+
+@lib("torch.utils.data.Subset.__init__")
+def _subset_init(args, kwargs, st, eng):
+    """stores dataset and indices (the __getitem__/__getitems__ rule of the installed torch is a separate frame obligation)"""
+    ref = args[0]
+    ds = kwargs.get("dataset", args[1] if len(args) > 1 else None)
+    idx = kwargs.get("indices", args[2] if len(args) > 2 else None)
+    obj = st.heap[ref.oid]
+    obj.fields["dataset"], obj.fields["indices"] = ds, idx
+    return [(st, NONEV)]
+
+
+@lib("torch.max")
+def _torch_max(args, kwargs, st, eng):
+    sq = eng.as_seq(args[0], st)
+    m, k = z3.Int(uid("max")), z3.Int(uid("k"))
+    w = z3.Int(uid("argmax"))
+    eng.safety(st, "max:nonempty", sq.len > 0, None, "max of an empty tensor")
+    st.assume(z3.ForAll([k], z3.Implies(z3.And(0 <= k, k < sq.len), _e.to_int(sq.elem(k)) <= m)),
+              0 <= w, w < sq.len, _e.to_int(sq.elem(w)) == m)
+    r = VSeq.of([VInt(m)], INT)
+    r.kind = z3.IntVal(1)
+    return r
+
+
+def _class_counts(args, kwargs, st, eng):
+    """kappadata.utils.class_counts.get_class_counts(classes, n_classes): counts[i] = number of labels equal to i
+    (length max(n_classes, 2), all >= 0), plus the number of -1 labels"""
+    n = _e.to_int(eng.deref(kwargs.get("n_classes", args[1] if len(args) > 1 else None), st))
+    ln = z3.If(n == 1, 2, n)
+    name = uid("counts")
+    f = z3.Function(name, z3.IntSort(), z3.IntSort())
+    k = z3.Int(uid("k"))
+    st.assume(z3.ForAll([k], f(k) >= 0, patterns=[f(k)]))
+    c = VSeq(ln, lambda t: VInt(f(t)), INT)
+    c.kind = z3.IntVal(1)
+    u = z3.Int(uid("unlabeled"))
+    st.assume(u >= 0)
+    return VTuple([c, VInt(u)])
+
+
+DEFAULT_EXTERNALS["kappadata/utils/class_counts.py::get_class_counts"] = _class_counts
+LIB["torch.arange"] = lambda a, k, s, e: _mk_array(s, (lambda n: VSeq(z3.If(n > 0, n, 0), lambda t: VInt(t), INT))(_e.to_int(e.deref(a[0], s))), 1)
